@@ -186,7 +186,8 @@ def report(rep, pid, ok, err, rej, stats, name, nontriv):
 def oracle(rep, recs, name, pid):
     ok, err, rej, stats = judge(recs, name, pid)
     if err or rej:
-        raise lib.Machinery("marshal spec disagrees with CPython (%s): %s" % (name, json.dumps((err or rej)[:3])[:1500]))
+        ex = [(x, ok[x["index"]]["id"][:120]) for x in rej[:3]] if rej else err[:3]
+        raise lib.Machinery("marshal spec disagrees with CPython (%s): %s" % (name, json.dumps(ex)[:1500]))
     rep.extra.setdefault("oracle", []).append({"run": name, "cpython_cases_accepted": len(ok)})
     rep.states += stats["states"]
     rep.transitions += stats["transitions"]
